@@ -225,7 +225,10 @@ class GaussianKDE(DensityEstimator):
             lwr, upr = self.sample[0], self.sample[-1]
 
         result = minimize_scalar(
-            lambda x: -self(x), bounds=[lwr, upr], method="bounded"
+            lambda x: -self(x),
+            bounds=[lwr, upr],
+            method="bounded",
+            options={"xatol": 1e-6 * (upr - lwr)},
         )
         return result.x
 
